@@ -33,7 +33,7 @@ func suitesStr(ss []tls.HPKESymmetricCipherSuite) string {
 	return joinList(out)
 }
 
-func parseSuites(s string) []tls.HPKESymmetricCipherSuite {
+func parseSuites_c16(s string) []tls.HPKESymmetricCipherSuite {
 	var out []tls.HPKESymmetricCipherSuite
 	for _, t := range splitList(s) {
 		var k, a uint16
@@ -110,7 +110,7 @@ func genEchInit(r *Rng, i int, tier string) string {
 
 func execEchInit(in KV) string {
 	g := &tls.GREASEEncryptedClientHelloExtension{
-		CandidateCipherSuites: parseSuites(in["suites"]),
+		CandidateCipherSuites: parseSuites_c16(in["suites"]),
 		CandidateConfigIds:    toU8(parseU64s(in["ids"])),
 		EncapsulatedKey:       unhex(in["enc"]),
 		CandidatePayloadLens:  toU16(parseU64s(in["lens"])),
@@ -147,7 +147,7 @@ func execEchInit(in KV) string {
 
 // ---- ech_conn ----
 
-var echIDs = []tls.ClientHelloID{tls.HelloChrome_120, tls.HelloChrome_120_PQ, tls.HelloChrome_131, tls.HelloChrome_133, tls.HelloFirefox_120}
+var echIDs_c16 = []tls.ClientHelloID{tls.HelloChrome_120, tls.HelloChrome_120_PQ, tls.HelloChrome_131, tls.HelloChrome_133, tls.HelloFirefox_120}
 
 func findECH(exts []tls.TLSExtension) *tls.GREASEEncryptedClientHelloExtension {
 	for _, e := range exts {
@@ -159,8 +159,8 @@ func findECH(exts []tls.TLSExtension) *tls.GREASEEncryptedClientHelloExtension {
 }
 
 func genEchConn(r *Rng, i int, tier string) string {
-	id := echIDs[i%len(echIDs)]
-	srv := []string{"plain", "hrr", "hrr-cookie"}[(i/len(echIDs))%3]
+	id := echIDs_c16[i%len(echIDs_c16)]
+	srv := []string{"plain", "hrr", "hrr-cookie"}[(i/len(echIDs_c16))%3]
 	return fmt.Sprintf("id=%s srv=%s k=%d rseed=%d", idName(id), srv, 3, r.U64()>>1)
 }
 
